@@ -72,6 +72,8 @@ def task_enum(ctx, col, shard, L):
 
 def task_random(ctx, col, shard, n, max_ops):
     hyp_search(ctx, col, rhist.st_ragged_history(max_ops=max_ops), lambda s: execute(ctx, s), shard_seed(ctx, shard), n)
+    # grow / shrink / regrow on one handle, the live handle being read only now and then
+    hyp_search(ctx, col, rhist.st_growth_history(max_ops=max_ops + 4), lambda s: execute(ctx, s), shard_seed(ctx, shard) + 11, max(10, n // 3))
 
 
 def tasks(ctx):
